@@ -914,10 +914,12 @@ def gen_op(rng, fx: Fixture, ids, allow_errors=True):
     def fresh_vals(m, distinct=True):
         out = []
         used = set()
+        if (vd is None or vd.conv == 'node') and rng.random() < 0.3:
+            distinct = False    # distinct objects that compare equal (same text): positions must follow identity, not ==
         for _ in range(m):
             ty = rng.choice(tys)
             for _ in range(20):
-                v = rng.randrange(50, 58)
+                v = rng.randrange(50, 58) if distinct else rng.randrange(50, 52)
                 if ty == CBOOL:
                     v = rng.randrange(2)
                 elif ty in CUSTOM_TYS:
